@@ -68,6 +68,8 @@ class C16(Prop):
     # translator tie: is_finished() of every translated observer, generated from the current source, is the
     # model's `finished` (GenTie/Fin/*.lean)
     tie_modules = {
+        # from_stream(_result) / from_future(_result): what is scheduled, the driver polls = streamSpec / tryStreamSpec
+        "RxModel.GenTie.AsyncSources": [],
         "RxModel.GenTie.Fin.Map": ['map'],
         "RxModel.GenTie.Fin.MapTo": ['mapto'],
         "RxModel.GenTie.Fin.Filter": ['filter'],
